@@ -196,6 +196,10 @@ func (q *BooleanQuery) initPrimarySearchers(i search.Reader, options search.Sear
 }
 
 func (q *BooleanQuery) Searcher(i search.Reader, options search.SearcherOptions) (rv search.Searcher, err error) {
+	if len(q.shoulds) == 0 && q.minShould > 0 {
+		// at least minShould of zero should queries cannot be satisfied
+		return searcher.NewMatchNoneSearcher(i, options)
+	}
 	mustSearcher, shouldSearcher, mustNotSearcher, err := q.initPrimarySearchers(i, options)
 	if err != nil {
 		return nil, err
